@@ -1,7 +1,7 @@
 (* C02 — Watermark discipline: no early firing, no on-time loss, bounded late updates.
    Statements only. Tumbling window; the sliding and session windows share Model/Watermark.v. *)
 From Coq Require Import Lia.
-From SV Require Import Model.Session Model.Tumbling Model.Sliding Proofs.TumblingProofs Proofs.TumblingComplete Proofs.TumblingWatermark Proofs.WindowsWatermark Proofs.QuietProofs Proofs.TumblingIdle.
+From SV Require Import Model.Session Model.Tumbling Model.Sliding Proofs.TumblingProofs Proofs.TumblingComplete Proofs.TumblingWatermark Proofs.WindowsWatermark Proofs.QuietProofs Proofs.TumblingIdle Proofs.LateUpdates.
 
 (* every watermark the trigger goroutine ever receives is (timestamp of an ingested, not
    far-future event) - MAXOUTOFORDERNESS, and a window [s,e) fires for the first time only after
@@ -96,3 +96,41 @@ Theorem C02_tick_resends : forall ooo idle now w m c,
   chan (tick ooo idle now w) = chan w ++ [c] /\ sent (tick ooo idle now w) = Some c.
 Proof. exact tick_resends. Qed.
 Print Assumptions C02_tick_resends.
+
+(* late updates of the session window: a late event inside the retained fired session of its own key re-delivers that
+   session (same start and end, hence the same window_id) with the previous contents plus the event ... *)
+Theorem C02_late_update_session : forall c id ts key now s t,
+  (now + nooo c + day <? ts) = false ->
+  is_late ts (update_event_time (nooo c) now ts (n_w s)) = true ->
+  (0 <? nlateness c) = true ->
+  lookup key (n_trig s) = Some t -> in_sess (ts_sess t) ts = true ->
+  snd (nadd c id ts key now s) =
+    [SvAdd id ts key;
+     SvBatch key (se_start (ts_sess t)) (se_end (ts_sess t)) (se_rows (ts_sess t) ++ [(id, ts, key)])].
+Proof. exact session_late_update. Qed.
+Print Assumptions C02_late_update_session.
+
+(* ... and any other late event (outside that session, or of a key with no retained session) changes no result *)
+Theorem C02_late_drop_session : forall c id ts key now s,
+  (now + nooo c + day <? ts) = false ->
+  is_late ts (update_event_time (nooo c) now ts (n_w s)) = true ->
+  (match lookup key (n_trig s) with Some t => in_sess (ts_sess t) ts | None => false end) = false ->
+  let '(s', evs) := nadd c id ts key now s in
+  evs = [SvAdd id ts key] /\ n_sess s' = n_sess s /\ n_trig s' = n_trig s.
+Proof. exact session_late_drop. Qed.
+Print Assumptions C02_late_drop_session.
+
+(* late updates of the sliding window: every retained fired window containing the timestamp is re-delivered, in window
+   order, with its previous contents plus the buffered rows inside it that it did not hold yet (the late event among them) *)
+Theorem C02_late_update_sliding : forall c id ts now s,
+  is_late ts (update_event_time (sooo c) now ts (s_w s)) = true ->
+  (0 <? slateness c) = true ->
+  existsb (fun t => in_twin t ts) (s_trig s) = true ->
+  snd (sadd_core c id ts now s) =
+    map (fun t => {| b_start := t_start t; b_end := t_end t;
+                     b_rows := t_snap t ++ filter (fun x => in_twin t (rts x) && negb (existsb (fun y => rid y =? rid x) (t_snap t)))
+                                                  (s_data s ++ [(id, ts)]);
+                     b_late := true |})
+        (filter (fun t => in_twin t ts) (s_trig s)).
+Proof. exact sliding_late_update. Qed.
+Print Assumptions C02_late_update_sliding.
